@@ -30,6 +30,7 @@ struct Round {
   bool yield_in_cs = false;
   int guard_origin = 0;  // guards: 0 m.Guard()/m.TryGuard(), 1 deferred guard then g.Lock()/g.TryLock(), 2 adopt_lock after m.Lock() / try_to_lock
   int gap = 0;
+  int guard_moves = 0;  // guards, between the critical section and the release: 1 Release() + unlock through the mutex, 2 move-construct, 3 Swap
   // recorded
   std::uint64_t invoke = 0, granted = 0, released = 0;
   int invoke_fiber = -1;
@@ -71,6 +72,7 @@ class Case final : public sim::CaseBase {
         rd.yield_in_cs = g.Flip();
         rd.gap = static_cast<int>(g.Draw(3));
         rd.guard_origin = (rd.lock == kGuard || rd.lock == kTryGuard) ? static_cast<int>(g.Draw(3)) : 0;
+        rd.guard_moves = (rd.lock == kGuard || rd.lock == kTryGuard) && g.Draw(3) == 2 ? 1 + static_cast<int>(g.Draw(3)) : 0;
         rs.push_back(rd);
       }
       rounds.push_back(rs);
@@ -89,6 +91,11 @@ class Case final : public sim::CaseBase {
         j.Obj().KV("lock", kLockNames[r.lock]).KV("unlock", kUnlockNames[r.unlock]).KV("yield_inside", r.yield_in_cs);
         if (r.lock == kGuard || r.lock == kTryGuard) {
           j.KV("guard_made_by", origins[r.guard_origin]);
+          static const char* moves[] = {"", "guard.Release(), then unlock through the mutex", "moved into a second guard (move constructor)",
+                                        "swapped into an empty guard (Swap)"};
+          if (r.guard_moves != 0) {
+            j.KV("before_release", moves[r.guard_moves]);
+          }
         }
         j.End();
       }
@@ -317,15 +324,48 @@ yaclib::Future<> Worker(Case* c, M* m, int w, yaclib::IExecutor* e, yaclib::IExe
           break;
         }
         CRITICAL_SECTION();
+        yaclib::UniqueGuard<M> g2;
+        yaclib::UniqueGuard<M>* use = &g;
+        if (r.guard_moves == 1) {
+          SIM_PROBE("guard_released_by_hand");
+          M* released = g.Release();
+          if (released != m || g.OwnsLock() || g.Mutex() != nullptr) {
+            sim::Fail("GUARD_NOT_OWNING", "guard.Release() did not hand back the mutex / left the guard owning");
+          }
+          if (r.unlock == kUnlock) {
+            co_await m->Unlock();
+          } else if (r.unlock == kUnlockOn) {
+            co_await m->UnlockOn(*e2);
+            if (sim::CurrentExec() != static_cast<sim::Proxy*>(e2)->tag()) {
+              sim::Fail("WRONG_EXECUTOR", "after UnlockOn(e2) coroutine %d is not running in e2", w);
+            }
+          } else {
+            m->UnlockHere();
+          }
+          break;
+        }
+        if (r.guard_moves == 2) {
+          SIM_PROBE("guard_move_constructed");
+          yaclib::UniqueGuard<M> tmp{std::move(g)};
+          g2.Swap(tmp);
+          use = &g2;
+        } else if (r.guard_moves == 3) {
+          SIM_PROBE("guard_swapped");
+          g2.Swap(g);
+          use = &g2;
+        }
+        if (use == &g2 && (g.OwnsLock() || !g2.OwnsLock() || g2.Mutex() != m)) {
+          sim::Fail("GUARD_NOT_OWNING", "after moving/swapping an owning guard the source still owns or the target does not");
+        }
         if (r.unlock == kUnlock) {
-          co_await g.Unlock();
+          co_await use->Unlock();
         } else if (r.unlock == kUnlockOn) {
-          co_await g.UnlockOn(*e2);
+          co_await use->UnlockOn(*e2);
           if (sim::CurrentExec() != static_cast<sim::Proxy*>(e2)->tag()) {
             sim::Fail("WRONG_EXECUTOR", "after guard.UnlockOn(e2) coroutine %d is not running in e2", w);
           }
         } else if (r.unlock == kUnlockHere) {
-          g.UnlockHere();
+          use->UnlockHere();
         }
       } break;
       default: {
